@@ -24,7 +24,12 @@ def main():
             continue
         sh(["git", "-C", WT, "checkout", "-q", "--detach", "main"])
         sh(["git", "-C", WT, "reset", "-q", "--hard"])
-        r = sh(["git", "-C", WT, "apply", os.path.join(os.path.dirname(mf), "patch.diff")])
+        for extra in ([], ["-3"], ["--recount", "-C1"]):
+            r = sh(["git", "-C", WT, "apply"] + extra +
+                   [os.path.join(os.path.dirname(mf), "patch.diff")])
+            if r.returncode == 0:
+                break
+            sh(["git", "-C", WT, "reset", "-q", "--hard"])
         if r.returncode:
             print("%s: patch no longer applies" % m["id"]); missed.append(m["id"]); continue
         t0 = time.time()
